@@ -239,6 +239,16 @@ theorem FD.reach {b : Nat} {h : Heap α} {o x : Nat} (hr : FReach h o x) :
     | zero => exact hd.elim
     | succ d => exact ih d ((hd.2.2.2.2 e he).2 vp hvp _ hn)
 
+/-- **(2′)** when everything the original reaches by any route (tokens, named values) is allocated (`FD`), no group
+    of the token tree of `r.deepcopy()` is reachable from the original by ANY route — the named values of the copy
+    (`deepcopy_names_shared`) are the only link between the two. -/
+theorem deepcopy_tokens_fresh_full (f : Nat) (h : Heap α) (o : Nat) (hw : TWF h f o) (d : Nat)
+    (hd : FD h.next h d o) (x : Nat) (hx : TReach (deepcopyN f h o).1 (deepcopyN f h o).2 x) : ¬ FReach h o x := by
+  intro ho
+  have h1 := ((deepcopy_tokens_fresh f h o hw).1 x hx).1.1
+  have h2 := (FD.reach ho d hd).1
+  omega
+
 /-- **(5) `copy.deepcopy` / pickle of nested results rebuilds every reachable object**: no allocated cell or object
     of the original heap is written; every object reachable from the copy by ANY route (tokens, named values, at any
     depth) is a new object with a new list cell, a new dict cell and new occurrence lists; everything reachable
